@@ -1,7 +1,7 @@
 (** C19 — Observability data reaches the metrics endpoint unaltered.
     Only statements closed by [exact]; proofs live in Obs/*Lemmas.v. *)
 From Coq Require Import Ascii String.
-From SV Require Import Obs.MetricSpec Obs.ObsCases Obs.TableLemmas.
+From SV Require Import Obs.MetricSpec Obs.ObsCases Obs.TableLemmas Obs.JsonLemmas.
 
 (** * The metric table translated from format.rs (regenerated on every run) *)
 
@@ -26,3 +26,25 @@ Proof. exact table_all_rows_ok_refuted. Qed.
 
 Theorem C19_format_bool_refuted : bool_enc_true = 0 /\ bool_enc_false = 1.
 Proof. exact format_bool_refuted. Qed.
+
+(** * The JSON hop (observer.rs write_json -> exporter.rs read_json) *)
+
+(** The compact JSON text of every well-formed value parses back to that value:
+    objects and arrays of any length and nesting, integers of ANY size and sign
+    (i128 Duration bits included), booleans, null, float tokens, escape-free strings. *)
+Theorem C19_parse_print : forall v, wf_json v = true -> parse (print v) = Some v.
+Proof. exact parse_print. Qed.
+
+(** Serialize then Deserialize is the identity on every well-formed state (every
+    field within the range of its Rust type, sdo_id <= 0xFFF, enum variants from
+    the tables translated from the Rust sources). *)
+Theorem C19_of_to_json : forall s, wf_state s = true -> of_json (to_json s) = Some s.
+Proof. exact of_to_json. Qed.
+
+(** json_roundtrip: for ALL well-formed states (path trace lists and port lists of
+    any length) the bytes the daemon writes denote, after parsing and
+    deserialising, exactly the state that was serialised. *)
+Theorem C19_json_roundtrip : forall s,
+  wf_state s = true ->
+  match parse (print (to_json s)) with Some v => of_json v | None => None end = Some s.
+Proof. exact json_roundtrip. Qed.
